@@ -102,6 +102,20 @@ impl TlsConnector {
     ensures r.connector.cfg() == connector.cfg(),   // [C19]
 //@end
 }
+/// `#[derive(Clone)]` on TlsConnector and actix_utils::future::{ok, Ready}
+impl Clone for TlsConnector {
+    #[verifier::external_body]
+    fn clone(&self) -> (r: TlsConnector) ensures r.connector.cfg() == self.connector.cfg() { unimplemented!() }
+}
+#[verifier::reject_recursive_types(T)]
+pub struct FutReady<T> { pub val: Option<T> }
+pub fn ok<T, E>(t: T) -> (r: FutReady<Result<T, E>>) ensures r.val == Some(Ok::<T, E>(t)) { FutReady { val: Some(Ok(t)) } }
+impl TlsConnector {
+//@extract file=actix-tls/src/connect/native_tls.rs item="impl<R: Host, IO> ServiceFactory<Connection<R, IO>> for TlsConnector / fn new_service" ret=r props=C19 name=native_tls::factory_new_service sig_replace="_: ()=>_unused: ();;Ready<=>FutReady<"
+//@spec
+    ensures r.val matches Some(Ok(svc)) && svc.connector.cfg() == self.connector.cfg(),   // [C19] the service IS the configured connector
+//@end
+}
 
 //@extract file=actix-tls/src/connect/native_tls.rs item="impl<R, IO> Service<Connection<R, IO>> for TlsConnector / fn call" async_block=1 block_sig="async fn call_block<R: Host, IO>(stream: Connection<R, ()>, io: IO, connector: AsyncNativeTlsConnector) -> Result<Connection<R, AsyncTlsStream<IO>>, io::Error>" ret=r props=C19 name=native_tls::call_block str_lits closure_ty="Connection<R, AsyncTlsStream<IO>>@@o.req == stream.req && o.io == res;;-" closures=1
 //@spec
